@@ -169,4 +169,18 @@ def run(R, tier):
                 from .c08 import F_CONST
                 exp = F_CONST[ty]["MAXimum" if b.name.endswith("max") else "MINimum"]
                 R.check(e[0] == "float" and e[1] == exp, "R17.4", "%s::%s" % (ty, b.name), "= type %s" % ("MAX" if b.name.endswith("max") else "MIN"), "%s::%s() has bits %s" % (ty, b.name, e), where=b.span)
-    R.floor("R17.4", "type default impls", n_def, 24)
+            elif "Quantity<" in (ty or ""):
+                # a unit quantity's type default is the storage type's default of the same kind, as the stored value
+                n_def += 1
+                qeng = fdai.Engine(P, uc, inline=lambda n_, r_: r_.startswith("scpi_contrib::scpi1999::numeric::") and not r_.endswith(("numeric_value_max", "numeric_value_min")), models={}, max_paths=16)
+                try:
+                    rs = qeng.run(b, [])
+                except (fdai.TooManyPaths, RecursionError):
+                    rs = []
+                import re as _re
+                srcs = set()
+                okq = len(rs) == 1 and rs[0].outcome == "return"
+                if okq:
+                    srcs = set(_re.findall(r"numeric_value_(?:max|min)", repr(fdai.snapshot(rs[0].retval))))
+                R.check(okq and srcs == {b.name}, "R17.4", "Quantity::%s" % b.name, "wraps the storage type's %s()" % b.name, "Quantity::%s() is built from %s" % (b.name, sorted(srcs) or "nothing recognisable"), where=b.span)
+    R.floor("R17.4", "type default impls", n_def, 26)
